@@ -285,6 +285,7 @@ main(int argc, char** argv)
   char* tok[V_MAX_TOK];
   int   n = 0;
   v_setup_io();
+  v_watchdog(60);
 #ifdef V_GUARD_DEFAULT
   v_guard_armed = 1;
 #endif
